@@ -150,6 +150,7 @@ theorem okNested_ext {all : List String} {te te' : C.TyEnv} (hext : Ext all te t
     simp only [Stmt.okNested] at h ⊢
     exact okCond_sub hext.1 h
   | brk => rfl
+  | call y g ps ls rt body ret args _ => simp only [Stmt.okNested] at h; cases h
 
 theorem trNested_ext {all : List String} {te te' : C.TyEnv} {m : Bool} {d : Nat} {s s' : Stmt} (hs : Sub te te')
     (hok : s.okNested all te' = true) (h : trNested te m d s = .ok s') : trNested te' m d s = .ok s' := by
@@ -206,6 +207,7 @@ theorem trNested_ext {all : List String} {te te' : C.TyEnv} {m : Bool} {d : Nat}
   | write e => rw [trNested] at h ⊢; exact h
   | sleep e => rw [trNested] at h ⊢; exact h
   | brk => rw [trNested] at h ⊢; exact h
+  | call y g ps ls rt body ret args _ => simp only [Stmt.okNested] at hok; cases hok
 
 /-! ### name-free expressions in C -/
 
